@@ -168,6 +168,8 @@ func treeAlphabet(r *Rng, t *Tree, extra []File) []Op {
 		Op{Kind: "string", Name: "rowpage", Data: mk([]string{"r"}, Val{T: "named", I: 1})},
 		Op{Kind: "evalstr", Src: "{{ r.num }}", Data: mk([]string{"r"}, Val{T: "named", I: 2})},
 	)
+	// the whole built-in function table, several calls of each function per render
+	ops = append(ops, Op{Kind: "string", Name: "allfuncs", Data: BuiltinSweepData()}, Op{Kind: "evalstr", Src: BuiltinSweepSrc, Data: BuiltinSweepData()})
 	return ops
 }
 
@@ -177,7 +179,7 @@ func genC16Tree(r *Rng) (*Scenario, *Tree, []Op) {
 	t := GenTree(r, o)
 	sc := &Scenario{Prop: "C16", Cwd: t.Cwd, Files: t.Clean()}
 	// a page that always fails late, after producing output
-	g := &Gen{R: r, Prefix: "PF"}
+	g := &Gen{R: r, Prefix: "PF", AllFuncs: true}
 	g.GenData()
 	late := g.Stmts(2, 1) + Pick(r, []string{"{{ undefinedLate }}", "{{ n1 / z0 }}", `{{ 1 + "a" }}`}) + "<p>PF_tail</p>"
 	if r.Chance(40) {
@@ -202,6 +204,7 @@ func genC16Tree(r *Rng) (*Scenario, *Tree, []Op) {
 		File{Path: t.path("reader"), Data: "<u>{{ title }}{{ count }}</u>", Role: "page"},
 		File{Path: t.path("floaty"), Data: "@for(f = 2.0; f > 0.0; f--)[{{ f }}]@end{{ base = 9.5 }}{{ base-- }}|{{ n = 3 }}{{ n++ }}|{{ g = 1.5 }}{{ g++ }}", Role: "page"},
 		File{Path: t.path("revpage"), Data: "<p>{{ xs.rev() }}</p><p>{{ xs }}</p>", Role: "page"},
+		File{Path: t.path("allfuncs"), Data: BuiltinSweepSrc, Role: "page"},
 	)
 	// variants of the first page that fail (or not, depending on the data value zf) at a seeded
 	// statement boundary — top level, inside if/else, loops, inserts, component slots
